@@ -1,10 +1,17 @@
 ------------------------------ MODULE CursorGen ------------------------------
 (* Behaviour generator for Cursor: history of (action, expected result).     *)
 EXTENDS CursorMC, Json
-CONSTANT Depth
+CONSTANTS Depth,
+          Mode      \* "all": every action with equal weight; "live": the life of cursors - only cursor statements and the
+                    \* statements that change what a cursor could see, and no step that just fails (uniform walks spend
+                    \* nine steps of ten on cursors that are not declared or not open)
 VARIABLE hist
 GenInit == Init /\ hist = <<[act |-> "init", tbl |-> tbl]>>
+LiveActs == {"declare", "open", "close", "fetch", "status", "whilein", "insert", "delete", "dispose"}
 GenNext == /\ Len(hist) <= Depth
-           /\ \E a \in Actions : Do(a) /\ hist' = Append(hist, [a |-> a, exp |-> out'])
+           /\ \E a \in Actions : /\ (Mode = "live" => a.act \in LiveActs)
+                                 /\ Do(a)
+                                 /\ (Mode = "live" => out'.k # "err")
+                                 /\ hist' = Append(hist, [a |-> a, exp |-> out'])
 Emit == (Len(hist) = Depth + 1) => PrintT(<<"TRACE", ToJson(hist)>>)
 =============================================================================
